@@ -205,6 +205,23 @@ class PairwiseBasedAlgorithm:
         return graph_of_elements
 
     @staticmethod
+    def buckets_with_elements_of(buckets, elements) -> list:
+        """
+        Express the buckets of a consensus ranking of a sub-problem with the elements of the initial dataset.
+
+        The elements of a sub-problem (see Dataset.sub_problem_from_elements) may have another type than in the initial
+        dataset: if the names of all the elements of the sub-problem are integers, they become int elements even if
+        they are str elements in the initial dataset. The consensus of the initial dataset must contain the elements of
+        the initial dataset.
+
+        :param buckets: the buckets (iterable of sets of elements) of the consensus ranking of the sub-problem
+        :param elements: the elements of the initial dataset which are the elements of the sub-problem
+        :return: the list of buckets, where each element is replaced by the element of same name in 'elements'
+        """
+        elements_by_name = {str(element): element for element in elements}
+        return [{elements_by_name[str(element)] for element in bucket} for bucket in buckets]
+
+    @staticmethod
     def can_be_all_tied(id_elements_to_check: Set[int], cost_matrix: ndarray) -> bool:
         """
         Check if all elements in a given set can be tied together with minimal cost.
